@@ -114,11 +114,21 @@ class WExec(Exec):
                         v = RemoteException(e)
                 arrivals[uid] = s.now
                 q_in.put((uid, v))
-            if cfg.get('gated'):
+            if cfg.get('gated') and not cfg.get('gate_on_full'):
                 # open the gate only once everything is queued: the collector has to cope with a full buffer
                 s.block(lambda: False, 5.0, on='feeder-pause')
                 gate['open'] = True
             q_in.put(None)
+
+        def opener():
+            # call() becomes fast again at the very moment the collector's buffer has become full
+            s.block(lambda: any(getattr(w, '_batch_buffer', None) is not None and w._batch_buffer.full() for w in workers),
+                    60.0, on='opener')
+            gate['open'] = True
+
+        if cfg.get('gate_on_full'):
+            ot = threading.Thread(target=opener, name='opener')
+            ot.start()
 
         ft = threading.Thread(target=feed, name='feeder')
         ft.start()
@@ -267,7 +277,23 @@ class WorkerH(Harness):
         return WExec(cfg)
 
 
-HARNESSES = {'worker': WorkerH}
-PLAN = {'quick': ['worker'], 'thorough': ['worker']}
+class CollectorFullH(WorkerH):
+    """the consumer starts draining exactly when the collector's buffer has become full (the collector is between its
+    fullness test and its wait); only the collector is traced line by line, so that two deviations are affordable"""
+    name = 'collector_full'
+    opts = dict(max_points=20000, timers='free', max_timer_fires=300)
+
+    def setup(self):
+        import mpservice.mpserver._worker as W
+        return sched.all_codes(W.Worker._build_input_batches)
+
+    def configs(self, tier):
+        quick = tier == 'quick'
+        return [dict(b=2, wait=0.5, gated=True, gate_on_full=True, items=list(range(15)), gaps=False, bound=2 if quick else 3,
+                     cap=150000 if quick else 1500000)]
+
+
+HARNESSES = {'worker': WorkerH, 'collector_full': CollectorFullH}
+PLAN = {'quick': ['worker', 'collector_full'], 'thorough': ['worker', 'collector_full']}
 ASSUMPTIONS = ['thread queues (_SimpleThreadQueue); the process-queue variant differs only in the queue type',
                'timing oracle assumes call() takes no virtual time']
